@@ -286,7 +286,7 @@ impl Property for C14 {
         }
     }
     fn rule(&self) -> &'static str {
-        "kind 0: a seeded state (all registers, IFFs, IM, paging incl. lock, border, every RAM page, AY registers) encoded as SNA or SZX (chunk order permuted, pages stored or zlib-compressed, unknown chunks, optional AY/KEYB/AMXM/CRTR chunks) and loaded through a chunking asset into a dirty receiver (halted, mid prefix chain, EI pending, paging locked on another bank, other border/IM/IFF, after a program ran, AY programmed, stopped by a breakpoint in the middle of a frame, having just rejected another file) and into a fresh one: field-by-field comparison, display vs RefScreen, identical continuation of both receivers, AY read-back and PCM vs a twin programmed through the ports, joystick/mouse presence; kind 1: SZX HALTED / EILAST flags; kind 2: the same state as SNA, stored SZX and compressed SZX must continue identically; kind 3: model mismatch matrix; kind 4: SCR. distinct = (kind, format, encoding options, machine pair, receiver dirt kind, flags)"
+        "kind 0: a seeded state (all registers, IFFs, IM, paging incl. lock, border, every RAM page, AY registers) encoded as SNA or SZX (chunk order permuted, pages stored or zlib-compressed, unknown chunks incl. one of 64 KiB..200 KB, zlib streams of 16381..16390 bytes, optional AY/KEYB/AMXM/CRTR chunks) and loaded through a chunking asset into a dirty receiver (halted, mid prefix chain, EI pending, paging locked on another bank, other border/IM/IFF, after a program ran, AY programmed, stopped by a breakpoint in the middle of a frame, having just rejected another file) and into a fresh one: field-by-field comparison, display vs RefScreen, identical continuation of both receivers, AY read-back and PCM vs a twin programmed through the ports, joystick/mouse presence; kind 1: SZX HALTED / EILAST flags; kind 2: the same state as SNA, stored SZX and compressed SZX must continue identically; kind 3: model mismatch matrix; kind 4: SCR. distinct = (kind, format, encoding options, machine pair, receiver dirt kind, flags)"
     }
     fn state_measure(&self) -> &'static str {
         "distinct (format, machine, receiver dirt kind, paged bank, lock) combinations compared"
